@@ -140,6 +140,7 @@ type gateway struct {
 	// the queue scheduling the object again before it marks the item Done
 	qmu      sync.Mutex
 	asked    map[interface{}]bool
+	lastAsked map[string]bool // per object name: did its latest handler invocation ask for a requeue
 	sched    map[interface{}]bool
 	dropped  string
 	closing  int32
@@ -157,7 +158,7 @@ type gateway struct {
 
 func startGateway() *gateway {
 	g := &gateway{client: gatewayfake.NewSimpleClientset(), stop: make(chan struct{}), exists: map[string]bool{},
-		ptrIdx: map[*clusters.ClusterInfo]int{}, rdv: &rendezvous{}, asked: map[interface{}]bool{}, sched: map[interface{}]bool{}}
+		ptrIdx: map[*clusters.ClusterInfo]int{}, rdv: &rendezvous{}, asked: map[interface{}]bool{}, sched: map[interface{}]bool{}, lastAsked: map[string]bool{}}
 	// the fake tracker does not replay: an object written between the informer's List and the registration of its
 	// Watch would never be delivered. Register the watch ourselves and tell when that has happened.
 	g.watching = make(chan struct{})
@@ -191,6 +192,9 @@ func startGateway() *gateway {
 			g.qmu.Lock()
 			g.asked[obj] = err == nil && (res.Requeue || res.RequeueAfter > 0)
 			g.sched[obj] = false
+			if o, ok := obj.(metav1.Object); ok {
+				g.lastAsked[o.GetName()] = g.asked[obj]
+			}
 			g.qmu.Unlock()
 			if sc := atomic.LoadInt64(&g.scale); sc > 1 && res.RequeueAfter > 0 {
 				res.RequeueAfter /= time.Duration(sc)
@@ -583,6 +587,16 @@ func runRetry(c *rig.Ctx, cs Case, count bool) (v verdict) {
 		defer g.qmu.Unlock()
 		return g.dropped
 	}
+	anyAsked := func() bool {
+		g.qmu.Lock()
+		defer g.qmu.Unlock()
+		for _, a := range g.lastAsked {
+			if a {
+				return true
+			}
+		}
+		return false
+	}
 	fail := func() verdict {
 		return verdict{Kind: "judge", Class: "c10.run.requeue-dropped",
 			What: fmt.Sprintf("real queue + Run(): the handler asked for a requeue of %q (its names are held by another cluster) and the queue marked the item done WITHOUT scheduling it again after %d handler invocations: nothing will ever look at that cluster again, it stays unserved when the conflict ends",
@@ -609,7 +623,8 @@ func runRetry(c *rig.Ctx, cs Case, count bool) (v verdict) {
 	}
 	// the conflict lasts: far more re-deliveries than any budget the handler names
 	want := g.writes + int64(6+len(cs.Burst)*6)
-	waitFor(func() bool { return atomic.LoadInt64(&g.finished) >= want || droppedNow() != "" }, 20*time.Second)
+	// (nothing to wait for when no handler asked for a requeue: a case without a conflict)
+	waitFor(func() bool { return atomic.LoadInt64(&g.finished) >= want || droppedNow() != "" || !anyAsked() }, 20*time.Second)
 	if droppedNow() != "" {
 		return fail()
 	}
@@ -644,11 +659,15 @@ func runRetry(c *rig.Ctx, cs Case, count bool) (v verdict) {
 		}
 		return true
 	}
-	conv := waitFor(func() bool { return servedAll() || droppedNow() != "" }, 20*time.Second)
+	conv := waitFor(func() bool { return servedAll() || droppedNow() != "" || (!anyAsked() && g.quiet()) }, 20*time.Second)
+	conv = conv && servedAll()
 	if droppedNow() != "" {
 		return fail()
 	}
 	if !conv {
+		if os.Getenv("C10_TIMING") != "" {
+			fmt.Fprintf(os.Stderr, "not converged: %s\n", rig.Canon(readable(cs).(map[string]interface{})["text"]))
+		}
 		return inconclusive("not-converged-in-time")
 	}
 	st := g.observe()
@@ -699,17 +718,28 @@ func genRetry(r *rand.Rand) Case {
 	g.names = append([]string{}, universe[:nc]...)
 	g.pool = append([]string{}, universe...)
 	owner, loser := g.names[0], g.names[1]
-	contested := rig.Pick(r, universe[nc-1:])
-	if contested == owner || contested == loser {
-		contested = "z.example"
+	contested := "z.example" // never the name of an object in play: only the owner stands in the loser's way
+	if nc < len(universe) {
+		contested = rig.Pick(r, universe[nc:])
 	}
-	spA := g.spec(owner, true)
+	// nobody but the owner's LAST server name stands in the loser's way
+	clean := func(sp *Spec) *Spec {
+		keep := []string{}
+		for _, a := range sp.Aliases {
+			if l := strings.ToLower(rig.UnHex(a)); l != loser && l != contested {
+				keep = append(keep, a)
+			}
+		}
+		sp.Aliases = keep
+		return sp
+	}
+	spA := clean(g.spec(owner, true))
 	spA.Aliases = append(spA.Aliases, rig.Hex(caseVar(r, contested)))
 	g.set(owner, spA)
 	if r.Intn(2) == 0 {
 		c := g.names[2]
 		if !g.claimedByOthers(c)[c] {
-			g.set(c, g.spec(c, true))
+			g.set(c, clean(g.spec(c, true)))
 		}
 	}
 	cs := Case{Kind: "retry", Steps: g.steps}
